@@ -155,10 +155,12 @@ def classify(evolved, fresh, rebuilt, muts, stepwise=False):
                     set(ix[0]) & renamed_columns(muts):
                 out.append((F_STALE_COLUMN, '%s: table-level index %s is not dropped by ChangeMeta after one of its '
                             'columns was renamed in the same run' % (t, ix[0])))
-            elif not multi and kind == 'missing' and (ix[0][0] + '>=0') in f['checks'] and any(
-                    m['t'] == 'ChangeField' and any(a == 'db_index' and v == 'true' for a, v in m['attrs']) for m in muts):
+            elif not multi and kind == 'missing' and not rb and ((ix[0][0] + '>=0') in f['checks'] or
+                                                      any(fk[0] == ix[0][0] for fk in f['fks'])) and any(
+                    m['t'] == 'ChangeField' and any(a == 'db_index' and v == 'true' for a, v in m['attrs']) and
+                    not any(a == 'db_column' for a, _ in m['attrs']) for m in muts):
                 out.append((F_CHECK_AS_INDEX, '%s: no index is created for %s: the scanned DatabaseState lists the column\'s '
-                            'CHECK constraint as an index, so create_index() thinks one exists' % (t, ix[0])))
+                            'CHECK / FOREIGN KEY constraint as an index, so create_index() thinks one exists' % (t, ix[0])))
             elif not multi and (rb or ((idx_touch or renames) and (not stepwise or rename_and_index_in_one(muts)))):
                 # one mutation at a time with the bookkeeping re-scanned before each, only a rebuild can lose or
                 # keep a single-column index wrongly; in a batched run the stale in-memory bookkeeping can too
@@ -305,6 +307,13 @@ def non_integer_fk(sig, m):
     return False
 
 
+def stepwise_explained(step, fresh, muts):
+    """the one-at-a-time run is clean, or everything wrong with it is attributed to a listed finding"""
+    if 'error' in step:
+        return crash_finding(step['error'], muts, step['rebuilt'])[0] is not None
+    return not any(f is None for f, _ in classify(step['schema'], fresh, step['rebuilt'], muts, stepwise=True))
+
+
 def run_mode(spec, muts, stepwise):
     models = dbrig.build_models(spec)
     sig = dbrig.sig_from_models(models)
@@ -398,16 +407,11 @@ def run(ctx):
                     diffs.append((None, 'table %s of an unrelated model changed' % t))
             ctx.count('%s:%s' % (mode, 'equal' if not diffs else 'differs'))
             for fid, text in diffs:
-                if fid is None and mode == 'batched' and 'schema' in res['stepwise'] and \
-                        not any(f is None for f, _ in classify(res['stepwise']['schema'], fresh,
-                                                               res['stepwise']['rebuilt'], muts, stepwise=True)) and \
-                        (name_reuse(muts) or touches_renamed_model(muts) or initial_rollup(muts)):
-                    fid = F_OPT      # only the optimised run is off, in a way C03's findings explain
-                elif fid is None and mode == 'batched' and 'schema' in res['stepwise'] and \
-                        not any(f is None for f, _ in classify(res['stepwise']['schema'], fresh,
-                                                               res['stepwise']['rebuilt'], muts, stepwise=True)) and \
-                        rename_with_naming(muts):
-                    fid = F_RENAME_NAMING
+                if fid is None and mode == 'batched' and stepwise_explained(res['stepwise'], fresh, muts):
+                    if name_reuse(muts) or touches_renamed_model(muts) or initial_rollup(muts):
+                        fid = F_OPT      # only the optimised run is off, in a way C03's findings explain
+                    elif rename_with_naming(muts):
+                        fid = F_RENAME_NAMING
                 key = fid if fid else ('V', text[:80])
                 found.setdefault(key, ((fid, text), dict(rep, mode=mode)))
         ctx.case({'mutations': [sigs.model_mutation(m) for m in muts], 'hinted': hinted},
